@@ -81,6 +81,9 @@ func genYXPCase(r *Rng) Case {
 		ex["m.must"] = mk("m", false)
 	}
 	if r.Chance(40) {
+		ex["m.useswhen"] = mk("m", false) // written on the uses in m, carried by the nodes copied from b's grouping
+	}
+	if r.Chance(40) {
 		ex["m.path"] = mk("m", true)
 	}
 	if r.Chance(50) {
@@ -123,11 +126,18 @@ func yxpTexts(c Case) []string {
 		"  grouping bg {\n    leaf bl { type string;" + get("b.must", "must") + get("b.when", "when") + " }\n" +
 		"    leaf br { " + typeOr("b.path") + " }\n  }\n}\n"
 	mm := "module m { namespace \"urn:m\"; prefix m; import b { prefix b; } import c { prefix y; } import d { prefix x; }\n" +
-		"  container mtop {\n    uses b:bg;\n    leaf ml { type string;" + get("m.must", "must") + " }\n" +
+		"  container mtop {\n    uses b:bg" + usesBody(get("m.useswhen", "when")) + "\n    leaf ml { type string;" + get("m.must", "must") + " }\n" +
 		"    leaf mt { type b:bt; }\n    leaf mr { " + typeOr("m.path") + " }\n  }\n}\n"
 	am := "module a2 { namespace \"urn:a2\"; prefix a2; import m { prefix m; } import c { prefix z; }\n" +
 		"  augment /m:mtop {" + get("a2.augwhen", "when") + "\n    leaf al { type string;" + get("a2.must", "must") + get("a2.when", "when") + " }\n  }\n}\n"
 	return []string{cm, dm, bm, mm, am}
+}
+
+func usesBody(s string) string {
+	if s == "" {
+		return ";"
+	}
+	return " {" + s + " }"
 }
 
 func machObs(kind string, m interface {
